@@ -96,22 +96,24 @@ package keeper
 // ghost: how many packets the routes have accepted (a route either accepts the packet - and charges the route fee - or
 // fails; a panic inside a route is neither)
 //@ ghost RouteSent Int
+// C11: the content a TSS tunnel asks the group to sign encodes THE PACKET: its own sequence number, prices and creation
+// time, in the route's encoding, for the packet's tunnel and the route's destination
 //@ func (k Keeper) SendTSSPacket
-//@ trusted
 //@ may_panic calls
-//@ modifies Bank, Other, RouteSent
-//@ ensures err == nil ==> RouteSent == old(RouteSent) + 1
-//@ ensures err != nil ==> RouteSent == old(RouteSent)
+//@ modifies Bank, Other, RouteSent, TSSReqTunnel, TSSReqChain, TSSReqAddr, TSSReqContent
+//@ names (err == nil ==> RouteSent == old(RouteSent) + 1) && (err != nil ==> RouteSent == old(RouteSent))
+//@ ensures TSSReqTunnel == packet.TunnelID && TSSReqChain == route.DestinationChainID && TSSReqAddr == route.DestinationContractAddress
+//@ ensures TSSReqContent == types.TunnelSignatureOrder{packet.Sequence, packet.Prices, packet.CreatedAt, route.Encoder}
 //@ func (k Keeper) SendIBCPacket
 //@ trusted
 //@ may_panic calls
-//@ modifies Bank, Other, RouteSent
+//@ modifies Bank, Other, RouteSent, TSSReqTunnel, TSSReqChain, TSSReqAddr, TSSReqContent
 //@ ensures err == nil ==> RouteSent == old(RouteSent) + 1
 //@ ensures err != nil ==> RouteSent == old(RouteSent)
 // A packet is reported as sent (err == nil) only when exactly one route accepted it; an error OR A PANIC anywhere in
 // the send (recovered here) is reported as an error, so that the caller discards the attempt
 //@ func (k Keeper) SendPacket
-//@ modifies Store_tunnel, Bank, Other, RouteSent
+//@ modifies Store_tunnel, Bank, Other, RouteSent, TSSReqTunnel, TSSReqChain, TSSReqAddr, TSSReqContent
 //@ ensures err == nil ==> RouteSent == old(RouteSent) + 1
 //@ ensures forall q Bz :: q != types.TunnelPacketStoreKey(packet.TunnelID, packet.Sequence) ==> Store_tunnel[q] == old(Store_tunnel)[q]
 //@ ensures err == nil ==> has(Store_tunnel, types.TunnelPacketStoreKey(packet.TunnelID, packet.Sequence))
@@ -125,7 +127,7 @@ package keeper
 // "The interval since the last full send has elapsed" is stated over the integers: now >= interval + last (F13: the code
 // used to add in int64, which wraps for intervals from 2^63 on and made every block a full send).
 //@ func (k Keeper) ProducePacket
-//@ modifies Store_tunnel, Bank, Other, RouteSent
+//@ modifies Store_tunnel, Bank, Other, RouteSent, TSSReqTunnel, TSSReqChain, TSSReqAddr, TSSReqContent
 //@ assert after sendAll: sendAll == (unixNow >= tunnel.Interval + latestPrices.LastInterval)
 //@ requires wfTunnel(Store_tunnel, tunnelID) && wfLP(Store_tunnel, tunnelID)
 // the store invariant (every tunnel and latest-prices record is filed under its own id, fee payers are addresses) is kept
@@ -158,7 +160,7 @@ package keeper
 // store, the bank state and every other module reached by the route are exactly as before.
 //@ func (k Keeper) ProduceActiveTunnelPacket
 //@ counts tunnelID
-//@ modifies Store_tunnel, Bank, Other, RouteSent
+//@ modifies Store_tunnel, Bank, Other, RouteSent, TSSReqTunnel, TSSReqChain, TSSReqAddr, TSSReqContent
 //@ requires wfTunnel(Store_tunnel, tunnelID) && wfLP(Store_tunnel, tunnelID)
 //@ ensures err != nil ==> Bank == old(Bank) && Other == old(Other) && Store_tunnel == old(Store_tunnel)
 //@ requires forall t Int :: wfTunnel(Store_tunnel, t) && wfLP(Store_tunnel, t)
@@ -174,7 +176,7 @@ package keeper
 // the per-tunnel step was started for which id)
 //@ ghost Count_ProduceActiveTunnelPacket map[uint64]int
 //@ func (k Keeper) ProduceActiveTunnelPackets
-//@ modifies Store_tunnel, Bank, Other, RouteSent, Count_ProduceActiveTunnelPacket
+//@ modifies Store_tunnel, Bank, Other, RouteSent, TSSReqTunnel, TSSReqChain, TSSReqAddr, TSSReqContent, Count_ProduceActiveTunnelPacket
 //@ requires forall t Int :: wfTunnel(Store_tunnel, t) && wfLP(Store_tunnel, t)
 //@ ensures err == nil
 //@ ensures forall t Int :: wfTunnel(Store_tunnel, t) && wfLP(Store_tunnel, t)
@@ -256,7 +258,7 @@ package keeper
 // since now); remembered prices are merged with the packet's. On failure of the creator / activity / funds checks
 // nothing changes.
 //@ func (k msgServer) TriggerTunnel
-//@ modifies Store_tunnel, Bank, Other, RouteSent
+//@ modifies Store_tunnel, Bank, Other, RouteSent, TSSReqTunnel, TSSReqChain, TSSReqAddr, TSSReqContent
 //@ requires wfTunnel(Store_tunnel, msg.TunnelID) && wfLP(Store_tunnel, msg.TunnelID)
 //@ ensures err == nil ==> old(has(Store_tunnel, types.TunnelStoreKey(msg.TunnelID))) && old(tunnelAt(Store_tunnel, msg.TunnelID)).Creator == msg.Creator && old(tunnelAt(Store_tunnel, msg.TunnelID)).IsActive
 //@ ensures err == nil ==> tunnelAt(Store_tunnel, msg.TunnelID).Sequence == wrapu64(old(tunnelAt(Store_tunnel, msg.TunnelID)).Sequence + 1)
@@ -273,10 +275,14 @@ package keeper
 //@ modifies Other
 // C17: an imported state is accepted only if the module account holds exactly the recorded deposits plus the recorded
 // fees - whatever the balance is, zero included (otherwise InitGenesis panics and the import is refused)
+//@ spec allDeposits(ds []types.Deposit, n Int) sdk.Coins = n <= 0 ? zero("sdk.Coins") : ext("Coins.Add", allDeposits(ds, n - 1), ds[n-1].Amount)
 //@ func InitGenesis
 //@ may_panic calls
 //@ modifies Store_tunnel, Bank, Other
 //@ assert at end: ext("Coins.Equal", balance, totalBalance)
+// ... where the total is the sum of ALL recorded deposits (added up in list order) plus the recorded fees
+//@ loop 1: invariant totalDeposits == allDeposits(data.Deposits, #i)
+//@ assert before balance: totalDeposits == allDeposits(data.Deposits, len(data.Deposits))
 // C08 / C17 "processed as active exactly when flagged active", the other direction: the import starts from an empty
 // active index and puts into it ONLY tunnels that are flagged active
 //@ requires forall t Int :: !has(Store_tunnel, types.ActiveTunnelIDStoreKey(t))
@@ -298,3 +304,14 @@ package keeper
 //@ writers LatestPricesStoreKey: Keeper.SetLatestPrices
 //@ writers TunnelPacketStoreKey: Keeper.SetPacket
 //@ writers TunnelStoreKey: Keeper.SetTunnel
+
+// ---- read-only list getters (iterator + decode loops): results not modelled, no state written -------------------------
+// (so that a caller which uses one of them stays analysable: the list is an arbitrary well-typed value)
+//@ func (k Keeper) GetDeposits
+//@ trusted
+//@ func (k Keeper) GetAllDeposits
+//@ trusted
+//@ func (k Keeper) GetAllLatestPrices
+//@ trusted
+//@ func (k Keeper) GetTunnels
+//@ trusted
